@@ -109,6 +109,29 @@ func (fc *FnCtx) traceClosure(v ssa.Value) *ssa.MakeClosure {
 			if x.Op != token.MUL {
 				return nil
 			}
+			if fv, isFV := x.X.(*ssa.FreeVar); isFV && fc.fn.Parent() != nil {
+				// a captured func variable: find the closure assigned to it in the parent
+				for _, pb := range fc.fn.Parent().Blocks {
+					for _, pin := range pb.Instrs {
+						if pa, ok := pin.(*ssa.Alloc); ok && pa.Comment == fv.Name() {
+							var found *ssa.MakeClosure
+							n := 0
+							for _, ref := range *pa.Referrers() {
+								if s, ok := ref.(*ssa.Store); ok && s.Addr == pa {
+									n++
+									if mc, ok := s.Val.(*ssa.MakeClosure); ok {
+										found = mc
+									}
+								}
+							}
+							if n == 1 && found != nil && found.Fn == fc.fn {
+								return found // recursive call of the closure itself
+							}
+						}
+					}
+				}
+				return nil
+			}
 			a, ok := x.X.(*ssa.Alloc)
 			if !ok {
 				return nil
@@ -259,7 +282,7 @@ func (fc *FnCtx) inheritFrame(p *FnCtx) {
 
 // contractEnv binds a contract's parameter names to actual arguments.
 func (fc *FnCtx) contractEnv(c *Contract, callee *ssa.Function, args []SV, st *State, mc *ssa.MakeClosure) *Env {
-	env := &Env{fc: fc, vc: fc.vc, st: st, vars: map[string]SV{}, bound: map[string]Term{}, nquant: &fc.vc.n}
+	env := &Env{fc: fc, vc: fc.vc, st: st, vars: map[string]SV{}, bound: map[string]Term{}, nquant: &fc.vc.n, cells: map[string]SV{}}
 	env.lets = map[string]Expr{}
 	for _, l := range c.Lets {
 		env.lets[l.Name] = l.E
@@ -273,7 +296,13 @@ func (fc *FnCtx) contractEnv(c *Contract, callee *ssa.Function, args []SV, st *S
 		if mc != nil {
 			for i, fv := range callee.FreeVars {
 				// captured variable: name denotes the variable's value
-				b := fc.val(mc.Bindings[i])
+				var b SV
+				if callee == fc.fn && i < len(fc.fn.FreeVars) {
+					b = fc.val(fc.fn.FreeVars[i]) // recursive call: same captured variables
+				} else {
+					b = fc.val(mc.Bindings[i])
+				}
+				env.cells[fv.Name()] = b
 				if isPointer(fv.Type()) {
 					env.vars[fv.Name()] = fc.vc.load(st, fc.e.rootLV(b.one(), pointee(fv.Type())))
 				} else {
@@ -343,7 +372,9 @@ func (fc *FnCtx) applyContract(st *State, instr ssa.CallInstruction, c *Contract
 	st.alloc = na
 	// results
 	res := vc.havoc(resT, "res_"+calleeName, st.alloc)
-	post := &Env{fc: fc, vc: vc, st: st, old: pre, vars: map[string]SV{}, bound: map[string]Term{}, lets: env.lets, nquant: &vc.n}
+	post := &Env{fc: fc, vc: vc, st: st, old: pre, vars: map[string]SV{}, bound: map[string]Term{}, lets: env.lets, nquant: &vc.n, cells: env.cells}
+	// captured variables denote their value in the state the clause is evaluated in
+	post.cellVars = true
 	for k, v := range env.vars {
 		post.vars[k] = v
 	}
@@ -442,13 +473,19 @@ func (env *Env) modTargets(c *Contract) []modTarget {
 				out = append(out, modTarget{ghost: "chanClosed", key: k.one(), src: src})
 				continue
 			}
+			if x.Fn == "onceDone" || x.Fn == "locked" {
+				if lv := env.evalLV(x.Args[0]); lv != nil {
+					out = append(out, modTarget{ghost: x.Fn, key: env.fc.interiorPtr(lv), src: src})
+					continue
+				}
+			}
 		case *EIdent:
 			if g, ok := e.spec.Ghosts[x.Name]; ok {
 				out = append(out, modTarget{ghost: g.Name, src: src})
 				continue
 			}
-			if x.Name == "chanClosed" {
-				out = append(out, modTarget{ghost: "chanClosed", src: src})
+			if x.Name == "chanClosed" || x.Name == "onceDone" || x.Name == "mapLen" {
+				out = append(out, modTarget{ghost: x.Name, src: src})
 				continue
 			}
 		case *ESel:
@@ -586,6 +623,9 @@ func (fc *FnCtx) frameCheckTarget(st *State, t modTarget, instr ssa.CallInstruct
 			}
 		}
 		var alts []Term
+		if t.key != "" {
+			alts = append(alts, mkLe(root.entry.alloc, t.key)) // ghost state of an object allocated here
+		}
 		for _, mt := range root.modTargets {
 			if mt.lv == nil && mt.ghost == t.ghost && t.key != "" {
 				alts = append(alts, mkEq(mt.key, t.key))
@@ -621,6 +661,7 @@ func (fc *FnCtx) atCall(st *State, instr ssa.CallInstruction, name string, args 
 			continue
 		}
 		a := a
+		fc.vc.atMatched[fmt.Sprintf("%s:%d", a.C.File, a.C.Line)] = true
 		env := fc.env(st, instr.Block())
 		env.atInstr = instr
 		for i, v := range args {
@@ -664,9 +705,17 @@ func (fc *FnCtx) atCall(st *State, instr ssa.CallInstruction, name string, args 
 
 // ghostAssign executes `set lhs = rhs` for a ghost variable or ghost field.
 func (fc *FnCtx) ghostAssign(st *State, env *Env, lhs Expr, rhs Expr, instr ssa.Instruction) {
+	fc.ghostAssignCond(st, env, lhs, rhs, instr, "true")
+}
+
+func (fc *FnCtx) ghostAssignCond(st *State, env *Env, lhs Expr, rhs Expr, instr ssa.Instruction, cond Term) {
 	v := env.eval(rhs)
 	if len(v.T) != 1 {
 		env.fail("ghost assignment of a compound value")
+	}
+	if cond != "true" {
+		cur := env.eval(lhs)
+		v = SV{Typ: v.Typ, T: []Term{mkIte(cond, v.T[0], cur.T[0])}}
 	}
 	switch x := lhs.(type) {
 	case *EIdent:
